@@ -7,12 +7,14 @@ TAG=${1:-owsim}
 mkdir -p .build/bin
 cp /repo/go.sum ./go.sum 2>/dev/null
 go build -o .build/bin/rewrite-$TAG ./tools/rewrite || exit 2
+# exit 3 = ow-sim builds as it is, but cannot be instrumented: the caller reports "not decided"
+cannot() { echo "$1" >&2; if go build -o /dev/null github.com/flowmatters/openwater-core/cmd/ow-sim 2>/dev/null; then exit 3; fi; exit 2; }
 rm -rf .build/rw/owsim-$TAG && mkdir -p .build/rw/owsim-$TAG
 cp overlay/owsim_verif_main.go.txt .build/rw/owsim-$TAG/owsim_zz_verif_main.go
 FILES="/repo/cmd/ow-sim/main.go /repo/cmd/ow-sim/running.go /repo/cmd/ow-sim/simulation_model_reference.go /repo/io/hdf5_util.go $(ls /repo/models/*/generated_*.go)"
 .build/bin/rewrite-$TAG -out .build/rw/owsim-$TAG -rename-main owsimOriginalMain \
   -probe runGeneration:0 -probe writeGeneration:0 -probe PurgeGeneration:0 -probe GetGeneration:0 \
-  -add /repo/cmd/ow-sim=/verif/.build/rw/owsim-$TAG/owsim_zz_verif_main.go $FILES || exit 2
+  -add /repo/cmd/ow-sim=/verif/.build/rw/owsim-$TAG/owsim_zz_verif_main.go $FILES || cannot "the rewriter cannot model this tree"
 RACE="-race"
 [ "$OWSIM_NORACE" = 1 ] && RACE=""
-go build -ldflags '-X owverif.local/verif/vrt.Instrumented=yes' $RACE -overlay .build/rw/owsim-$TAG/overlay.json -o .build/owsim-check-$TAG github.com/flowmatters/openwater-core/cmd/ow-sim || { echo "instrumented ow-sim build failed" >&2; exit 2; }
+go build -ldflags '-X owverif.local/verif/vrt.Instrumented=yes' $RACE -overlay .build/rw/owsim-$TAG/overlay.json -o .build/owsim-check-$TAG github.com/flowmatters/openwater-core/cmd/ow-sim || cannot "instrumented ow-sim build failed"
